@@ -11,7 +11,7 @@ def jobs(tier):
         # (i)-(iii): framing automaton; (ii) decode_line's precondition "the line was completely read from
         # this file by the most recent fread"; (iv) token-level rejection
         js.append(B.framing(Job, d, cfg, t))
-        js.append(B.handle_token(Job, d, cfg, t))
+        js.append(B.handle_token(Job, d, cfg, "quick" if d == 5 else t))     # PDP11: the 0xC8 rule (cut-off operand)
         js.append(B.decode_line(Job, d, cfg, t))
         js.append(B.decode_file(Job, d, cfg, t))
     js.append(B.wrapped_main(Job, cfg))     # (iii) per-file independence: fresh decoder, fresh indent, frame
